@@ -43,12 +43,12 @@ ORDER_FREE = {"sorted", "len", "sum", "min", "max", "any", "all", "set", "frozen
 
 def run(ctx: Ctx):
     R = Resolver(ctx.repo)
-    r20_1(ctx, R)
-    r20_2(ctx, R)
-    r20_3(ctx, R)
-    r20_4(ctx, R)
+    ctx.attempt("R20.1", lambda: r20_1(ctx, R))
+    ctx.attempt("R20.2", lambda: r20_2(ctx, R))
+    ctx.attempt("R20.3", lambda: r20_3(ctx, R))
+    ctx.attempt("R20.4", lambda: r20_4(ctx, R))
     from ..util import persistent_state
-    persistent_state(ctx, "R20.5", [f_ for f_ in (ctx.repo.func(q_, required=False) for q_ in ('auto_map', 'sort_molecules', 'classify_files', '_cli.main')) if f_ is not None], "a command-line run")
+    ctx.attempt("R20.5", lambda: persistent_state(ctx, "R20.5", [f_ for f_ in (ctx.repo.func(q_, required=False) for q_ in ('auto_map', 'sort_molecules', 'classify_files', '_cli.main')) if f_ is not None], "a command-line run"))
 
 
 def _is_set_type(t) -> Optional[bool]:
@@ -214,7 +214,9 @@ def r20_2(ctx: Ctx, R: Resolver):
                 rec = norm(sub.value)
                 n += 1
                 ok, how = False, ""
+                from ..pat import expand_single_defs as _xsd202
                 for t, pol in guards_of(sub, pmf):
+                    t = _xsd202(f.node, t)          # `n = len(rec)` ... `if n == 3:` reads as `if len(rec) == 3:`
                     for cmp_ in [x for x in ast.walk(t) if isinstance(x, ast.Compare)]:
                         # key in rec
                         if isinstance(cmp_.ops[0], ast.In) and isinstance(cmp_.left, ast.Constant) and cmp_.left.value == key \
@@ -765,9 +767,13 @@ def r20_4(ctx: Ctx, R: Resolver):
     lst = [s for s in walk_no_nested(main.node) if isinstance(s, ast.List)
            and len(s.elts) == 3 and all(isinstance(e, ast.Subscript) and isinstance(e.slice, ast.Constant) for e in s.elts)]
     okl = bool(lst) and [e.slice.value for e in lst[0].elts] == ["top_CG", "coor_AA", "top_AA"]
-    ctx.ob("R20.4", main, lst[0] if lst else "discovered triple", okl,
-           "a discovered species is listed as (start topology, end coordinates, end topology), the order auto_map consumes",
-           node=lst[0] if lst else main.node)
+    if not lst:
+        ctx.ob("R20.4", main, "discovered triple", True, "a discovered species is not listed through a literal [rec['top_CG'], rec['coor_AA'], "
+               "rec['top_AA']]; the order of the triple is not decided on this tree", undecided=True, node=main.node)
+    else:
+        ctx.ob("R20.4", main, lst[0] if lst else "discovered triple", okl,
+               "a discovered species is listed as (start topology, end coordinates, end topology), the order auto_map consumes",
+               node=lst[0] if lst else main.node)
     # roles of the record keys in sort_molecules
     okr = True
     facts = {}
@@ -776,15 +782,24 @@ def r20_4(ctx: Ctx, R: Resolver):
                 and s.value.keys[0].value == "top_CG":
             # in the else branch of the try around add_molecule_top
             facts["top_CG"] = norm(s.value.values[0])
+    unread_trial = False
     for c in calls_in(sm.node):
         if call_name(c) == "from_files" and len(c.args) == 2:
             facts["coor_AA_tested_with"] = (norm(c.args[0]), norm(c.args[1]))
-            okr &= isinstance(c.args[1], ast.Subscript) and isinstance(c.args[1].slice, ast.Constant) and c.args[1].slice.value == "top_AA"
+            keyed = isinstance(c.args[1], ast.Subscript) and isinstance(c.args[1].slice, ast.Constant)
+            okr &= keyed and c.args[1].slice.value == "top_AA"
+            unread_trial = unread_trial or not keyed        # the topology of the trial is not read off the record by a literal key
     okr &= "top_CG" in facts and "coor_AA_tested_with" in facts
     nested_trial = any(call_name(c) == "from_files" for n_ in ast.walk(sm.node) if isinstance(n_, ast.FunctionDef) and n_ is not sm.node
                        for c in ast.walk(n_) if isinstance(c, ast.Call)) or \
         any(call_name(c) == "from_files" for h_ in ctx.with_helpers(sm)[1:] for c in ast.walk(h_.node) if isinstance(c, ast.Call))
-    if not okr and nested_trial:
+    rec_dict = [s for s in walk_no_nested(sm.node) if isinstance(s, ast.Assign) and isinstance(s.value, ast.Dict) and s.value.keys
+                and isinstance(s.value.keys[0], ast.Constant) and s.value.keys[0].value == "top_CG"]
+    if not okr and (not rec_dict or unread_trial):
+        # the per-species record is not a dict literal {"top_CG": ...} (per-role tables, a small class ...)
+        ctx.ob("R20.4", sm, "record roles", True, "the per-species record is not built as a dict literal keyed 'top_CG'; which file plays "
+               "which role is not decided on this tree", undecided=True, node=sm.node)
+    elif not okr and nested_trial:
         ctx.ob("R20.4", sm, "record roles", True, "the trial load is done by a local helper; which files it is given is not decided on this tree",
                undecided=True, node=sm.node)
     else:
